@@ -328,6 +328,107 @@ def run(chk):
     _index_rule(chk, prog)
     _setcount_rule(chk, prog)
     _probesym_rule(chk, prog)
+    _restore_rule(chk, prog)
+    _growtharg_rule(chk, prog)
+
+
+def _restore_rule(chk, prog):
+    """save / lower / restore of a container's count: the lowered count is a transient state, so nothing that can raise
+    may run while it is in force (a raise would leave the elements above it cut off)."""
+    from jv.summaries import Summaries
+    rule = "C04-RESTORE"
+    chk.rule(rule, "a container count that is saved, overwritten and later restored is not left overwritten by a raise in between")
+    summ = Summaries(prog, CallGraph(prog))
+
+    def count_store(n):
+        if n.k == "asg" and n.kids[0].k == "mem" and n.kids[0].field == "count" and n.kids[0].rec in ("JanetBuffer", "JanetArray"):
+            return n.kids[0].text(), strip_casts(n.kids[1])
+        return None
+    for fn in prog.all_funcs():
+        stores = [(n, count_store(n)) for n in fn.nodes if count_store(n)]
+        if not stores:
+            continue
+        chk.instance(rule)
+        chk.analysed(fn)
+        # locals that hold a saved count: `int32_t old = X->count`
+        saved = {}
+        for n in fn.nodes:
+            src = None
+            if n.k == "vardecl" and n.kids:
+                src, name = strip_casts(n.kids[0]), n.name
+            elif n.k == "asg" and n.op == "=" and n.kids[0].k == "ref":
+                src, name = strip_casts(n.kids[1]), n.kids[0].name
+            if src is not None and src.k == "mem" and src.field == "count" and src.rec in ("JanetBuffer", "JanetArray"):
+                saved[name] = src.text()
+        restores = [(n, st) for n, st in stores if n.op == "=" and is_ref(st[1]) and saved.get(st[1].name) == st[0]]
+        if not restores:
+            chk.ok(rule, "%s: %d count store(s), none restores a saved count" % (fn.name, len(stores)))
+            continue
+        restore_ids = set(n.id for n, _ in restores)
+        lvals = set(st[0] for _, st in restores)
+
+        def transfer(st, n):
+            cs = count_store(n)
+            if cs and cs[0] in lvals:
+                if n.id in restore_ids:
+                    return st - frozenset([cs[0]])
+                return st | frozenset([cs[0]])
+            return st
+        IN, OUT, T = flow.forward_paths(fn, frozenset(), transfer)
+        for b, S in IN.items():
+            for n in fn.blocks[b].elems:
+                if n.k == "call" and any(s for s in S) and summ.call_in(fn, n, summ.may_panic):
+                    lv = sorted(set().union(*S))[0]
+                    chk.violation(rule, fn.tu.name, fn.name, "%s:%s" % (lv, n.callee or "indirect"), n.loc,
+                                  "`%s` can raise while `%s` holds a temporary value that %s restores only afterwards from its saved copy: "
+                                  "after the raise the container stays cut to the temporary count and the elements above it are lost" % (
+                                      n.text()[:50], lv, fn.name))
+                S = T(S, n)
+        chk.ok(rule, "%s: restore idiom, no raising call while the count is overwritten" % fn.name)
+    chk.floor(rule, 30)
+
+
+def _growtharg_rule(chk, prog):
+    rule = "C04-GROWTHARG"
+    chk.rule(rule, "every call of janet_array_ensure / janet_buffer_ensure passes a growth factor that is at least 1")
+    for fn in prog.all_funcs():
+        sites = [n for n in fn.nodes if n.k == "call" and n.callee in ("janet_array_ensure", "janet_buffer_ensure") and len(n.args) == 3]
+        if not sites:
+            continue
+        chk.analysed(fn)
+        IN = T = None
+        for c in sites:
+            chk.instance(rule)
+            g = strip_casts(c.args[2])
+            if g.v is not None:
+                if g.v >= 1:
+                    chk.ok(rule, "%s: growth %d" % (fn.name, g.v))
+                else:
+                    chk.violation(rule, fn.tu.name, fn.name, "growth:%s" % c.callee, c.loc,
+                                  "`%s` passes the constant growth factor %d: capacity * growth is not a capacity" % (c.text()[:50], g.v))
+                continue
+            if IN is None:
+                IN, T = flow.condition_facts(fn)
+            gt = g.text()
+            ok = True
+            for x, S in flow.states_at(fn, IN, T):
+                if x is not c:
+                    continue
+                for ps in S:
+                    good = False
+                    for (op, l, r, toks, ln, rn) in ps:
+                        if l == gt and rn is not None and rn.v is not None and ((op == ">=" and rn.v >= 1) or (op == ">" and rn.v >= 0)):
+                            good = True
+                    if not good:
+                        ok = False
+            if ok:
+                chk.ok(rule, "%s: growth `%s` tested >= 1 on every path" % (fn.name, gt))
+            else:
+                chk.violation(rule, fn.tu.name, fn.name, "growth:%s" % c.callee, c.loc,
+                              "`%s` passes a growth factor `%s` that no dominating test bounds below by 1: with growth <= 0 the new "
+                              "capacity capacity * growth is zero or negative and the reallocation aborts the process with 'out of memory'" % (
+                                  c.text()[:50], gt))
+    chk.floor(rule, 14)
 
 
 def _setcount_rule(chk, prog):
